@@ -208,6 +208,8 @@ def check(repo, res, tier):
     # ---------------------------------------------------------------- R-TABLE
     _check_table(res, ifj, setup, choose)
 
+    from ..rules.sweep import gate_call_arity
+    gate_call_arity(repo, res, {"pygom/model/ode_utils/__init__.py", "pygom/model/deterministic.py"})
     # ---------------------------------------------------------------- R-SHAPE
     check_shapes(repo, res, {"jacobian"}, {"jacobian": "integrateFuncJac(full_output=True), always used by integrate2, applies np.linalg.eig to it"})
 
